@@ -5,6 +5,7 @@ operations: ('m', op) on the multi-fit, ('f<i>', op) on member i, with op as in 
             ('shared', kind, name, [member indices][, 'explicit'])   shared source through MultiFit.add_error / add_matrix_error;
                                        the axis argument is omitted if all sharing members are single-axis fits unless 'explicit'
             ('m', ('fit', 'asym'))     do_fit(asymmetric_parameter_errors=True)
+            ('m', ('addto', i, kind, name))   a source of member i alone declared through the multi-fit (fits=<int>)
             ('m', ('query', how))      ask the multi-fit for asymmetric uncertainties: 'prop' property, 'report', 'result' dictionary
 """
 import collections
@@ -99,6 +100,17 @@ class MultiWorld(object):
                 self.shared.append((kind, name, list(idxs)))
                 for i in idxs:
                     self.members[i].implicit_no_errors = False
+            elif tgt == "m" and o[0] == "addto":
+                # ('m', ('addto', member index, kind, name)): a source of ONE member declared through the multi-fit (fits=<int>);
+                # equivalent to declaring it on the member itself
+                _, i, kind, name = o
+                w = self.members[i]
+                meth, kw = ref.kind_call(kind, w.val)
+                if w.ftype != "xy":
+                    kw.pop("axis")
+                getattr(self.multi, meth)(fits=int(i), name=name, **kw)
+                w.sources[name] = [kind, True]
+                w.implicit_no_errors = False
             elif tgt == "m":
                 f = self.multi
                 k = o[0]
